@@ -21,6 +21,8 @@ type Rewrite struct {
 	File  string            `json:"file"`
 	Calls map[string]string `json:"calls"` // "time.Now" -> "verifNow"
 	Funcs map[string]string `json:"funcs"` // "(*T).m" or "f" -> stub function name
+	// "x.M" -> "stub": a method call on the local variable x becomes stub(x, args...)
+	MethodCalls map[string]string `json:"method_calls"`
 }
 
 // applyRewrite returns the rewritten source of one file.
@@ -41,6 +43,10 @@ func applyRewrite(rw Rewrite) ([]byte, error) {
 			if id, ok := sel.X.(*ast.Ident); ok {
 				if to, ok := rw.Calls[id.Name+"."+sel.Sel.Name]; ok {
 					call.Fun = ast.NewIdent(to)
+					done[id.Name+"."+sel.Sel.Name] = true
+				} else if to, ok := rw.MethodCalls[id.Name+"."+sel.Sel.Name]; ok {
+					call.Fun = ast.NewIdent(to)
+					call.Args = append([]ast.Expr{ast.NewIdent(id.Name)}, call.Args...)
 					done[id.Name+"."+sel.Sel.Name] = true
 				}
 			}
@@ -110,6 +116,11 @@ func applyRewrite(rw Rewrite) ([]byte, error) {
 	for k := range rw.Calls {
 		if !done[k] {
 			return nil, fmt.Errorf("rewrite: call %s not found in %s/%s", k, rw.Dir, rw.File)
+		}
+	}
+	for k := range rw.MethodCalls {
+		if !done[k] {
+			return nil, fmt.Errorf("rewrite: method call %s not found in %s/%s", k, rw.Dir, rw.File)
 		}
 	}
 	for k := range rw.Funcs {
